@@ -783,6 +783,13 @@ func GenC11(seed uint64, tier string) *Config {
 	if c.BigData == 0 && c.Before == nil && c.Crowd <= 1 && r.IntN(8) == 0 {
 		c.ScoreBystanders = 1 + r.IntN(2) // Score evaluated by other goroutines during the call (DESIGN 4.1 note 22)
 	}
+	if c.Hash == "stub" && c.Before == nil && c.Crowd <= 1 && !c.PassOver && c.Workers >= 2 && c.Workers <= 64 && c.HardCap == 0 && r.IntN(6) == 0 {
+		// "a nonce returned without error meets the target" holds for calls that are cancelled as well: when the
+		// cancellation loses against a find, what comes back is a nonce and is judged like any other. The cancellation is
+		// aimed at the moment a finder is about to report.
+		c.Fault = FaultPlan{Kind: "cancel", Cancel: Trigger{Mode: "parked", Site: pick(r, "worker.send", "worker.found", "worker.send"), Nth: 1, Force: r.IntN(3) > 0}, Grace: r.IntN(51)}
+		c.Background, c.NeverDone = false, ""
+	}
 	return c
 }
 
@@ -972,6 +979,13 @@ func GenC12(seed uint64, tier string) *Config {
 	}
 	if c.BigData == 0 && c.Before == nil && c.Crowd <= 1 && r.IntN(8) == 0 {
 		c.ScoreBystanders = 1 + r.IntN(2) // Score evaluated by other goroutines during the call (DESIGN 4.1 note 22)
+	}
+	if c.Hash == "stub" && c.Before == nil && c.Crowd <= 1 && !c.PassOver && c.Workers >= 2 && c.Workers <= 64 && c.HardCap == 0 && r.IntN(6) == 0 {
+		// "a nonce returned without error meets the target" holds for calls that are cancelled as well: when the
+		// cancellation loses against a find, what comes back is a nonce and is judged like any other. The cancellation is
+		// aimed at the moment a finder is about to report.
+		c.Fault = FaultPlan{Kind: "cancel", Cancel: Trigger{Mode: "parked", Site: pick(r, "worker.send", "worker.found", "worker.send"), Nth: 1, Force: r.IntN(3) > 0}, Grace: r.IntN(51)}
+		c.Background, c.NeverDone = false, ""
 	}
 	return c
 }
